@@ -235,7 +235,7 @@ func runSolver(sp solverSpec, file string, timeoutS int) (verdict string, out st
 	if strings.Contains(out, "timeout") || ctx.Err() != nil {
 		return "timeout", out, secs
 	}
-	if strings.Contains(out, "error") {
+	if strings.Contains(out, "error") && !strings.Contains(out, "failed to open file") && !strings.Contains(out, "Couldn't open file") {
 		fmt.Fprintf(os.Stderr, "SOLVER-ERROR %s on %s: %s\n", sp.name, file, firstLines(out, 2))
 	}
 	return "error", out, secs
